@@ -95,6 +95,24 @@ def wl_plain(ctx, rng, case):
                 if key not in shadow:
                     shadow.append(key)
                 ctx.count("op.add")
+            elif r < 0.65 and rng.random() < 0.12 and f.elements_added >= 0:
+                # this filter is exported to a path, ANOTHER filter of the same geometry is exported over it, then this one again (no
+                # addition in between): what is loaded from the path afterwards must report every key of this filter
+                tgt = sc.path("shared-target")
+                other = P.BloomFilter(est, rate, **bl.kw_hash(hf))
+                for k2 in rng.sample(keys, min(len(keys), 2)):
+                    other.add(k2 if rng.random() < 0.5 else "only-in-the-other-filter")
+                case.op("export, foreign export over it, export again")
+                f.export(tgt)
+                other.export(tgt)
+                f.export(tgt)
+                back = P.BloomFilter(filepath=tgt, **bl.kw_hash(hf))
+                for kk in shadow:
+                    if not back.check(kk):
+                        ctx.fail("a key is reported absent by the filter loaded from a path this filter was just exported to (another filter had been exported there in between)", key=kk)
+                ctx.check(bytes(back) == bytes(f) if not isinstance(f, P.BloomFilterOnDisk) else back.elements_added == f.elements_added, "the file at the export target is not this filter's current export")
+                ctx.count("exports_over_a_foreign_export")
+                continue
             elif r < 0.65 and rng.random() < 0.25 and gen.near_twin(est, rate, m, k):
                 # a partner of NEARLY the same geometry (other number of bits, same number of bytes and hashes): the union is refused (None);
                 # if it is carried out it is a union like any other and must report the keys of both operands
